@@ -341,6 +341,11 @@ func (g *gen) execInstr(fr *frame, cur *node, st *State, ins ssa.Instruction) *n
 		ln := g.sval(fr, x.Len)
 		cp := g.sval(fr, x.Cap)
 		g.safety(cur, "makeslice", "", x.Pos(), and(app("<=", "0", ln), app("<=", ln, cp)))
+		if g.fs != nil && g.fs.BoundedAlloc {
+			esz := types.SizesFor("gc", "amd64").Sizeof(x.Type().Underlying().(*types.Slice).Elem())
+			g.addObl(cur, "alloc", "alloc:make", "allocation size is a constant (<= 64 bytes), not a value read from the input", g.pos(x.Pos()),
+				app("<=", app("*", fmt.Sprint(esz), cp), "64"), true)
+		}
 		id := g.alloc(cur, st)
 		s := app("mkslice", id, "0", ln, cp)
 		fr.vals[x] = s
